@@ -60,6 +60,8 @@ func init() {
 	importProp("C04", "C13", map[string]string{"R13.10": "R4.11"}, "(R4.11 = C13 R13.10) a route whose restore failed is not reported as restored, so the canary Service is not deleted under it.")
 	extendProp("C11", "(R11.14) UpgradeBatch and EnsureBatchPodsReadyAndLabeled of the canary-style control plane compute the batch context only behind IsStable() of the canary Deployment (observedGeneration >= generation): SyncWorkloadInformation checks the stable Deployment only.", r7C11)
 	extendProp("C20", "(R20.9) every load through an optional scalar pointer (*int32 weight, *string traffic, …) in the conversion functions is dominated by a nil test of that pointer.", r7C20)
+	extendProp("C18", "(R18.12) Finalize of the partition-style and blue-green control planes returns nil only as the result of the workload controller's Finalize, or as IgnoreNotFound of the workload lookup.", r7C18)
+	importProp("C05", "C18", map[string]string{"R18.12": "R5.17"}, "(R5.17 = C18 R18.12) every exit releases the workload the release claimed.")
 	extendProp("C08", "(R8.10) both admission handlers answer 'this workload is not selected by the webhook configuration' only after every entry and rule was examined (or the entry's selector cannot be parsed): the first entry whose rule matches does not decide alone.", r6C08)
 }
 
@@ -699,6 +701,12 @@ func r6C06(c *Ctx) {
 	}, func(ci ssa.CallInstruction) bool {
 		if direct(ci) {
 			return true
+		}
+		// a finder called through a function value (the per-kind finder list)
+		if cc := ci.Common(); !cc.IsInvoke() && cc.StaticCallee() == nil {
+			if _, isBuiltin := cc.Value.(*ssa.Builtin); !isBuiltin {
+				return true
+			}
 		}
 		for _, cal := range p.Callees(ci) {
 			if talks[cal] {
@@ -1942,5 +1950,64 @@ func r7C20(c *Ctx) {
 	}
 	if n == 0 {
 		c.Unresolved("R20.9", "loads of optional scalars in the converters")
+	}
+}
+
+// ---------------------------------------------------------------- C18 R18.12 (round 7)
+
+func r7C18(c *Ctx) {
+	p := c.Prog
+	c.Rule("R18.12", "a control plane's Finalize ends without calling the workload controller's Finalize only when the workload is gone", 2)
+	for _, name := range []string{"pkg/controller/batchrelease/control/partitionstyle.realBatchControlPlane.Finalize", "pkg/controller/batchrelease/control/bluegreenstyle.realBatchControlPlane.Finalize"} {
+		fn := p.Func(name)
+		if fn == nil {
+			c.Unresolved("R18.12", name)
+			continue
+		}
+		finalizes := func(in ssa.Instruction) bool {
+			ci, ok := in.(ssa.CallInstruction)
+			if !ok {
+				return false
+			}
+			cc := ci.Common()
+			if cc.IsInvoke() {
+				return cc.Method.Name() == "Finalize"
+			}
+			g := cc.StaticCallee()
+			return g != nil && g.Name() == "Finalize" && g != fn
+		}
+		n := 0
+		for _, b := range fn.Blocks {
+			for _, in := range b.Instrs {
+				if finalizes(in) {
+					n++
+				}
+			}
+		}
+		bad := ""
+		for _, r := range WalkCP(Entry(fn), nil, IsReturn, ReachOpts{CutInstr: finalizes}) {
+			ret := r.Instr.(*ssa.Return)
+			if ret.Block() == fn.Recover || len(ret.Results) != 1 {
+				continue
+			}
+			rv := Resolve(ret.Results[0], r.Env)
+			if call, ok := rv.(*ssa.Call); ok && NameMatch(CalleeName(&call.Call), "client.IgnoreNotFound") {
+				continue // the error of the lookup, nil only for NotFound
+			}
+			if k, ok := rv.(*ssa.Const); ok && k.IsNil() {
+				bad = "the return at " + p.Pos(ret.Pos()) + " answers nil without the workload controller's Finalize having run and without the lookup having said NotFound"
+				continue
+			}
+			if k, ok := rv.(*ssa.Const); ok && !k.IsNil() {
+				continue
+			}
+			// any other error value: must be known non-nil here
+			vt := TermOf(rv).String()
+			if !HasFact(FactsFor(fn).At(ret.Block()), FNotNil(func(t *Term) bool { return t.String() == vt })) {
+				bad = "the return at " + p.Pos(ret.Pos()) + " can answer nil (" + vt + ") without the workload controller's Finalize having run"
+			}
+		}
+		c.Ob("R18.12", shortName(name)+"#finalize-or-gone", fn.Pos(), n > 0 && bad == "", "nil is answered only by the workload controller's Finalize or for a workload that is not found",
+			ifs(bad != "", bad+": Initialize claims the workload whatever its size, so a shortcut here (no replicas, …) lets the BatchRelease complete and lose its finalizer while the workload keeps the control annotation and the partition")+ifs(n == 0, "call of the workload controller's Finalize not found"))
 	}
 }
